@@ -1,3 +1,4 @@
-From GoMC Require Import Base.Dec Model.C05 Model.C07.
+From GoMC Require Import Base.Dec Model.C05 Model.C07 Model.C07_conn.
 Require Import ExtrOcamlBasic.
-Extraction "c07_model.ml" run_flat pack pack_hdr unpack unpack_seq spec_frame_reader own_accepts write32 len32.
+Extraction "c07_model.ml" run_flat pack pack_hdr unpack unpack_seq spec_frame_reader own_accepts write32 len32
+  send_all recv_all wrap_conn2 toy_enc toy_dec plain_accepts.
